@@ -146,7 +146,7 @@ def run(plan):
             return False
         return True
 
-    dev.volunteered_props = [(pos, pid, bytes.fromhex(v)) for pos, pid, v in plan.get("volunteered", [])]
+    dev.volunteered_props = [tuple([vp[0], vp[1], bytes.fromhex(vp[2])] + list(vp[3:])) for vp in plan.get("volunteered", [])]
 
     async def main(w):
         ac = s.make_clients()[0]
@@ -394,8 +394,8 @@ def gen(j, rng):
     plan = {"config": cfg, "profile": p, "ops": ops}
     if rng.random() < 0.2:
         # the unit volunteers properties this client knows of but does not use, anywhere in its replies
-        plan["volunteered"] = [[rng.randrange(8), rng.choice([0x0015, 0x004B, 0x021E, 0x0227, 0x0201]), rng.choice(["00", "01", "32"])]
-                               for _ in range(rng.randint(1, 2))]
+        plan["volunteered"] = [[rng.randrange(8), rng.choice([0x0015, 0x004B, 0x021E, 0x0227, 0x0201]), rng.choice(["00", "01", "32"]),
+                                rng.choice([0x00, 0x00, 0x10, 0x11])] for _ in range(rng.randint(1, 2))]
     return plan
 
 
